@@ -9,6 +9,7 @@ from specs import dalvik_formats as F
 
 DEX = "androguard/core/dex/__init__.py"
 META = {
+    "technique": 'contract-based deductive verification: symbolic execution of the real functions against sidecar contracts (z3/cvc5) for the proved units; bounded contract evaluation (enumerated scope / independent writer) for the rest',
     "level": "other",
     "partial": True,
     "level_text": "Proof (one arbitrary sweep step, all byte contents): LinearSweepAlgorithm.get_instructions is started at a concrete "
